@@ -158,7 +158,7 @@ pub fn check_case(x: &[u8], t: &[u8], s: &[u8], sm: bool) -> Result<String, (Str
         Some(0) => "first",
         _ => "middle",
     };
-    let mut types: Vec<u16> = d.msg.all_recs().map(|r| r.rtype).collect();
+    let mut types: Vec<u16> = d.msg.all_recs().map(|r| type_bucket(r.rtype)).collect();
     types.sort();
     types.dedup();
     Ok(format!(
@@ -254,6 +254,15 @@ fn run(ctx: &mut Ctx, rep: &mut Report) {
         for st in strategies {
             let x = encode(m, *st);
             all(&x);
+        }
+    });
+    // every record type with data that looks like names: only NS/CNAME/PTR/MX/SOA data may be rewritten
+    all_types_packets(false, |i, p| {
+        let (ctx, rep) = unsafe { (&mut *ctxp, &mut *repp) };
+        if ctx.mine(i) {
+            rep.states += 1;
+            one(ctx, rep, p, &nm("k.z"), &nm("q.a"), true);
+            one(ctx, rep, p, &nm("z"), &nm("a"), true);
         }
     });
     for (i, p) in l5().iter().enumerate() {
